@@ -16,7 +16,7 @@ head = sh('git -C /repo rev-parse HEAD').stdout.strip()
 sh('git -C %s checkout -q --detach %s' % (WT, head))
 sh('git -C %s checkout -- .' % WT)
 for k in ks:
-    src = '/tmp/mut/out/%s' % pid
+    src = os.environ.get('SRC', '/tmp/mut/out') + '/%s' % pid
     patch, demo, metaf = '%s/mutant%s.diff' % (src, k), '%s/demo%s.py' % (src, k), '%s/meta%s.json' % (src, k)
     if not os.path.exists(patch):
         print(pid, k, 'no patch'); continue
